@@ -2616,21 +2616,33 @@ class InventoryPreviewTree(PreviewTree, inventorytree.InventoryTree):
 
     def get_symlink_target(self, path):
         """See Tree.get_symlink_target."""
-        file_id = self.path2id(path)
-        if not self._content_change(file_id):
-            return self._transform._tree.get_symlink_target(path)
         trans_id = self._path2trans_id(path)
+        if trans_id is None:
+            raise NoSuchFile(path)
+        if trans_id not in self._transform._new_contents:
+            # Unchanged content lives in the original tree, at the old path.
+            orig_path = self._transform.tree_path(trans_id)
+            if orig_path is None:
+                raise NoSuchFile(path)
+            return self._transform._tree.get_symlink_target(orig_path)
         name = self._transform._limbo_name(trans_id)
         return osutils.readlink(name)
 
     def get_file(self, path):
         """See Tree.get_file."""
-        file_id = self.path2id(path)
-        if not self._content_change(file_id):
-            return self._transform._tree.get_file(path)
         trans_id = self._path2trans_id(path)
-        name = self._transform._limbo_name(trans_id)
-        return open(name, "rb")
+        if trans_id is None:
+            raise NoSuchFile(path)
+        if trans_id in self._transform._new_contents:
+            name = self._transform._limbo_name(trans_id)
+            return open(name, "rb")
+        if trans_id in self._transform._removed_contents:
+            raise NoSuchFile(path)
+        # Unchanged content lives in the original tree, at the old path.
+        orig_path = self._transform.tree_path(trans_id)
+        if orig_path is None:
+            raise NoSuchFile(path)
+        return self._transform._tree.get_file(orig_path)
 
 
 def build_tree(tree, wt, accelerator_tree=None, hardlink=False, delta_from_tree=False):
